@@ -12,6 +12,23 @@ NOT_APPLICABLE = {
 }
 
 PROPERTIES = {
+    "C15": {
+        "modules": ["harness.c15"],
+        "explanation": "Partial claim: the plumbing between gathering and verification. That ECDSA / SHA-256 / X.509 reject altered data "
+                       "(the second sentence of the statement, as far as it rests on crypto soundness) is outside the claim.",
+        "assumptions": COMMON_ASSUMPTIONS + [
+            "crypto is uninterpreted (token algebra of C06): 'verifies' means the verifier is asked about exactly the device's (key, tweak, "
+            "message, signature) tokens; an altered item makes the verifier see a different token, whose verdict is an independent symbolic boolean",
+            "device = sim/ledger.py attestation handlers (UI: app hash / UD value / paged message / signature; signer: signature / paged "
+            "message / paged envelope / app hash, legacy unframed message) and a simulated admin app for the endorsement setup",
+            "SGX: the envelope is built by the harness from catalogue parts (own DER encoder as oracle); once the selections are made it is "
+            "concrete and sgx.envelope / admin.sgx_attestation / the ecdsa conversions run natively",
+            "unlocking, UD-value retrieval from a node and file I/O are stubbed (the UD value is given as 32-byte hex)",
+        ],
+        "level_text": "bounded symbolic verification of the gathering code paths (paging, framing, certificate augmentation, envelope "
+                      "conversion) against the roles the verifying half expects, crypto uninterpreted",
+        "level_note": "trusted: CrossHair/z3, the simulated device / admin app, the token algebra; crypto soundness is NOT covered",
+    },
     "C19": {
         "modules": ["harness.c19"],
         "explanation": "",
